@@ -279,7 +279,7 @@ type X struct {
 	Replay        bool
 	genRng        *Rng // run-time generation (preemption points); results are stored in the world
 	given         any  // op.Arg == "given": hand this Go value to Parse as is
-	leanRecs      [8]*OpRec
+	leanRecs      [48]*OpRec
 	OpaqueResults bool
 	SanitizeBad   string
 	sharedOpts    map[string]z.ExecOption
